@@ -63,6 +63,8 @@ def configs(tier, seed):
     out.append({"fam": "bridge", "cfg": {"aw": 5, "dw": 8, "regs": [{"name": "a__b", "w": 8, "scope": []},
                                                                     {"name": "b", "w": 8, "scope": [["c", "a"]]}]}})
     out.append({"fam": "bridge", "cfg": {"aw": 5, "dw": 8, "regs": [{"name": "r", "w": 8, "scope": [["i", 0]]}]}})
+    from .c19_shadow import configs as shadow_configs
+    out += shadow_configs(tier)
     return out
 
 
@@ -142,6 +144,9 @@ def _site(exc):
 
 
 def check(item, out, stats):
+    if item.get("shadow"):
+        from .c19_shadow import check_shadow
+        return check_shadow(item, out, stats)
     from ..nir2smt import TS
     out.extra = {"components": 1}
     make = maker(item)
@@ -230,6 +235,9 @@ def _replay_miter(item, stim):
 
 
 def replay(v):
+    if v["cfg"].get("shadow"):
+        from .c19_shadow import replay_shadow
+        return replay_shadow(v)
     item = v["cfg"]
     q = v["query"]
     if q == "different-hardware" and v.get("stimulus"):
